@@ -52,14 +52,33 @@ func c09InProgressErr(err error) bool {
 // the interleaving was non-trivial (the second operation read storage before the first one's final write).
 func c09Run(tb vt.TB, c c09Case) (taken []int, nontrivial bool, outcome string) {
 	w := world.New(c.Backend)
-	if c.Start == "deployed" {
+	if c.Start != "empty" {
 		if r := w.Run(&world.Op{Kind: "install", DisableHooks: true, Chart: c09Chart(0, 0)}); r.Err != nil {
 			tb.Fatalf("harness: baseline install failed: %v", r.Err)
 		}
 	}
+	switch c.Start {
+	case "deployed-long":
+		for v := 1; v <= 2; v++ {
+			if r := w.Run(&world.Op{Kind: "upgrade", DisableHooks: true, Chart: c09Chart(0, v)}); r.Err != nil {
+				tb.Fatalf("harness: baseline upgrade failed: %v", r.Err)
+			}
+		}
+	case "uninstalled-kept":
+		if r := w.Run(&world.Op{Kind: "uninstall", DisableHooks: true, KeepHistory: true}); r.Err != nil {
+			tb.Fatalf("harness: baseline uninstall failed: %v", r.Err)
+		}
+	}
 	pre := w.History()
+	// a schedule element names the operation to run next; when that one is not waiting (finished), it is taken modulo
+	// the number of waiting ones - so the schedule actually taken (a list of operation numbers) replays exactly
 	pick := func(step int, waiting []int) int {
 		if step < len(c.Schedule) {
+			for k, id := range waiting {
+				if id == c.Schedule[step] {
+					return k
+				}
+			}
 			return c.Schedule[step] % len(waiting)
 		}
 		return 0
@@ -100,6 +119,30 @@ func c09Run(tb vt.TB, c c09Case) (taken []int, nontrivial bool, outcome string) 
 			return taken, false, ""
 		}
 	}
+	// status of a stored revision at a point of the global order (from the successful writes seen so far)
+	type stWrite struct {
+		seq    int
+		key    string
+		status string
+	}
+	var writes []stWrite
+	for _, r := range results {
+		for _, e := range r.Events {
+			if e.Layer == "store" && e.Code == 0 && (e.Verb == "Create" || e.Verb == "Update") {
+				writes = append(writes, stWrite{e.Seq, e.Key, e.Note})
+			}
+		}
+	}
+	sort.Slice(writes, func(a, b int) bool { return writes[a].seq < writes[b].seq })
+	statusAt := func(key string, seq int) string {
+		st := c09StatusOf(pre, key)
+		for _, w := range writes {
+			if w.seq < seq && w.key == key {
+				st = w.status
+			}
+		}
+		return st
+	}
 	ok := 0
 	for i, r := range results {
 		if r.Err == nil {
@@ -123,6 +166,21 @@ func c09Run(tb vt.TB, c c09Case) (taken []int, nontrivial bool, outcome string) 
 				return taken, false, ""
 			}
 			if e.StoreWrite() && e.Code == 0 {
+				// not held against the loser: install --replace re-marks the finished (uninstalled) last revision
+				// superseded before it tries to create its own - the very write the winner makes too, and the state
+				// the record has in the end
+				if e.Verb == "Update" && e.Note == "superseded" && c09StatusOf(pre, e.Key) == "uninstalled" && c09StatusOf(post, e.Key) == "superseded" {
+					continue
+				}
+				// nor: history pruning, which runs inside Storage.Create before the record is written, removing
+				// revisions that are neither deployed nor pending at that moment (the winner prunes the same ones)
+				if e.Verb == "Delete" && c.Ops[i].MaxHistory > 0 {
+					if st := statusAt(e.Key, e.Seq); st != "" && st != "deployed" && !strings.HasPrefix(st, "pending") {
+						continue
+					}
+					fail("C09:loser-pruned-a-revision-it-must-not-touch", fmt.Sprintf("op%d: %s", i, e.String()))
+					return taken, false, ""
+				}
 				fail("C09:loser-wrote-release-storage", fmt.Sprintf("op%d: %s", i, e.String()))
 				return taken, false, ""
 			}
@@ -171,12 +229,24 @@ func c09Run(tb vt.TB, c c09Case) (taken []int, nontrivial bool, outcome string) 
 		fail("C09:two-deployed-revisions", world.HistString(post))
 		return taken, false, ""
 	}
+	// the revisions created during the race (some may have been pruned again under a history limit) are consecutive,
+	// and nothing else is new in the final history
 	exp := maxRev(pre)
 	var newRevs []int
 	preSet := revSet(pre)
+	createdRev := map[int]bool{}
+	for k := range creators {
+		var v int
+		if i := strings.LastIndex(k, ".v"); i >= 0 {
+			fmt.Sscan(k[i+2:], &v)
+		}
+		createdRev[v] = true
+		newRevs = append(newRevs, v)
+	}
 	for _, r := range post {
-		if _, okk := preSet[r.Version]; !okk {
-			newRevs = append(newRevs, r.Version)
+		if _, okk := preSet[r.Version]; !okk && !createdRev[r.Version] {
+			fail("C09:revision-in-history-that-nobody-created", world.HistString(post))
+			return taken, false, ""
 		}
 	}
 	sort.Ints(newRevs)
@@ -213,21 +283,35 @@ func c09Run(tb vt.TB, c c09Case) (taken []int, nontrivial bool, outcome string) 
 	return taken, nontrivial, outcome
 }
 
+// c09StatusOf finds the status of the revision stored under a storage key (sh.helm.release.v1.<name>.v<rev>).
+func c09StatusOf(h []world.Rev, key string) string {
+	for _, r := range h {
+		if strings.HasSuffix(key, fmt.Sprintf(".v%d", r.Version)) {
+			return r.Status
+		}
+	}
+	return ""
+}
+
 func c09GenCase(t *rapid.T) c09Case {
-	c := c09Case{Backend: rapid.SampledFrom([]string{"memory", "secret", "configmap"}).Draw(t, "backend"), Start: rapid.SampledFrom([]string{"empty", "deployed"}).Draw(t, "start")}
+	c := c09Case{Backend: rapid.SampledFrom([]string{"memory", "secret", "configmap"}).Draw(t, "backend"), Start: rapid.SampledFrom([]string{"empty", "empty", "deployed", "deployed", "deployed-long", "uninstalled-kept"}).Draw(t, "start")}
 	n := 2
 	if rapid.IntRange(0, 3).Draw(t, "threeOps") == 0 {
 		n = 3
 	}
 	for i := 0; i < n; i++ {
 		op := &world.Op{DisableHooks: true, Chart: c09Chart(i+1, rapid.IntRange(0, 3).Draw(t, "variant"))}
-		if c.Start == "empty" {
+		if c.Start == "empty" || c.Start == "uninstalled-kept" {
 			op.Kind = "install"
 			op.Atomic = rapid.IntRange(0, 3).Draw(t, "atomic") == 0
+			op.Replace = c.Start == "uninstalled-kept"
 		} else {
 			op.Kind = "upgrade"
 			op.Atomic = rapid.IntRange(0, 3).Draw(t, "atomic") == 0
 			op.CleanupOnFail = rapid.Bool().Draw(t, "cleanup")
+			if c.Start == "deployed-long" {
+				op.MaxHistory = rapid.SampledFrom([]int{0, 1, 2, 3}).Draw(t, "maxHistory")
+			}
 		}
 		c.Ops = append(c.Ops, op)
 	}
@@ -242,15 +326,15 @@ func c09Prop(t *rapid.T) {
 }
 
 func TestC09(t *testing.T) {
-	evid.Extra("rule", "C09: two (a quarter of the cases: three) install operations from an empty history, or upgrade operations from a deployed history, on one release name, each with its own Configuration, on the memory, Secret and ConfigMap backends; every storage call, cluster request and waiter call of every operation blocks at a gate until a scheduler grants it; the scheduler waits until every unfinished operation is blocked and then lets the operation named by the next element of a rapid-drawn choice list proceed - a deterministic, shrinkable interleaving at exactly the granularity the property names. At quiescence: every storage key was successfully created by exactly one operation; an operation that created no revision failed with an already-exists / in-progress / name-in-use error and sent no mutating cluster request and no successful storage write; the [first, last storage write] windows of operations that created revisions do not overlap; the final history has unique consecutive new revisions, at most one deployed, nothing pending. Non-trivial = an operation's first storage access lies between another operation's first storage access and its last storage write; distinct by (backend, start, operations, schedule taken).")
-	evid.Extra("assumptions", []string{"manifests have one resource per kind and hooks are off, so an operation has one call in flight", "max-history and crds/ are not used (pruning and CRD installation legitimately precede the record creation)", "the fake clientset's create is atomic; API-server optimistic concurrency is not modelled"})
+	evid.Extra("rule", "C09: two (a quarter of the cases: three) install operations from an empty history, install --replace operations over an uninstalled release with kept history, or upgrade operations from a deployed history of one or three revisions (the latter with history limits 0-3), on one release name, each with its own Configuration, on the memory, Secret and ConfigMap backends; every storage call, cluster request and waiter call of every operation blocks at a gate until a scheduler grants it; the scheduler waits until every unfinished operation is blocked and then lets the operation named by the next element of a rapid-drawn choice list proceed - a deterministic, shrinkable interleaving at exactly the granularity the property names. At quiescence: every storage key was successfully created by exactly one operation; an operation that created no revision failed with an already-exists / in-progress / name-in-use error and sent no mutating cluster request and no successful storage write (except install --replace re-marking the uninstalled last revision superseded, and history pruning of revisions that are neither deployed nor pending at that moment - both things the winner does too); the [first, last storage write] windows of operations that created revisions do not overlap; the final history has unique consecutive new revisions, at most one deployed, nothing pending. Non-trivial = an operation's first storage access lies between another operation's first storage access and its last storage write; distinct by (backend, start, operations, schedule taken).")
+	evid.Extra("assumptions", []string{"manifests have one resource per kind and hooks are off, so an operation has one call in flight", "crds/ directories are not used (CRD installation legitimately precedes the record creation)", "the fake clientset's create is atomic; API-server optimistic concurrency is not modelled"})
 	rapid.Check(t, c09Prop)
 }
 
 // TestC09Exhaustive enumerates ALL schedules with at most two pre-emptions for two operations (A^i B^j A* B*, both
 // starting orders), per backend and start state. Reported as exhaustive for that bounded space only.
 func TestC09Exhaustive(t *testing.T) {
-	evid.Extra("rule", "C09 (bounded-exhaustive part): for two operations, every schedule of the form X^i Y^j X* Y* (at most two pre-emptions, both starting orders, i and j over the whole length of the operations) on each backend and start state.")
+	evid.Extra("rule", "C09 (bounded-exhaustive part): for two operations, every schedule of the form X^i Y^j X* Y* (at most two pre-emptions, both starting orders, i and j over the whole length of the operations) on each backend and start state (empty: two installs; deployed: two upgrades; uninstalled with kept history: two install --replace, one of them --atomic; three revisions: two upgrades with history limits 2 and 1).")
 	total := 0
 	shard, shards := vt.IntEnv("SHARD_INDEX", 0), vt.IntEnv("SHARD_COUNT", 1)
 	if v := os.Getenv("VERIF_SHARDS"); v != "" {
@@ -258,13 +342,24 @@ func TestC09Exhaustive(t *testing.T) {
 		fmt.Sscan(os.Getenv("VERIF_SHARD"), &shard)
 	}
 	for _, backend := range []string{"memory", "secret", "configmap"} {
-		for _, start := range []string{"empty", "deployed"} {
+		for _, start := range []string{"empty", "deployed", "uninstalled-kept", "deployed-long"} {
 			kind := "install"
-			if start == "deployed" {
+			if start == "deployed" || start == "deployed-long" {
 				kind = "upgrade"
 			}
 			mk := func() []*world.Op {
-				return []*world.Op{{Kind: kind, DisableHooks: true, Chart: c09Chart(1, 1)}, {Kind: kind, DisableHooks: true, Chart: c09Chart(2, 2)}}
+				ops := []*world.Op{{Kind: kind, DisableHooks: true, Chart: c09Chart(1, 1)}, {Kind: kind, DisableHooks: true, Chart: c09Chart(2, 2)}}
+				for _, o := range ops {
+					o.Replace = start == "uninstalled-kept"
+					if start == "deployed-long" {
+						o.MaxHistory = 2
+					}
+				}
+				ops[1].Atomic = start == "uninstalled-kept"
+				if start == "deployed-long" {
+					ops[1].MaxHistory = 1
+				}
+				return ops
 			}
 			for firstOp := 0; firstOp < 2; firstOp++ {
 				for i := 0; i <= 24; i++ {
